@@ -824,6 +824,15 @@ private:
               // threads simultaneously decide to exit and drop below _initialSize
               if (_workerScaling)
               {
+                // A worker that spawnWorker() has not yet registered in _threads
+                // cannot remove its own entry below; if it exited now, the entry
+                // inserted afterwards would refer to a dead thread and count
+                // against _maxSize forever (queued tasks would never run).
+                if (_threads.find(std::this_thread::get_id()) == _threads.end())
+                {
+                  continue;
+                }
+
                 int currentExited = _threadsExited.load(std::memory_order_acquire);
                 bool claimedExitSlot = false;
 
